@@ -18,11 +18,12 @@ def _arg_variants(r, shape, q):
     if R > 1 and C > 1:
         r0, c0 = r.randrange(R - 1), r.randrange(C - 1)
         out.append(({"k": "m", "x": [[[rr, cc] for cc in range(c0, C)] for rr in range(r0, R)]}, r.choice(["ndarray", "fortran"])))
+    out.append(({"k": "l", "x": (ws + ws[::-1] + ws[:1])[: 2 * len(ws) + 1]}, "list"))   # more entries than the plate has wells (repeats)
     out.append(({"k": "l", "x": ws[: max(1, len(ws) // 2)]}, "object"))
     out.append(({"k": "l", "x": list(reversed(ws))}, "view"))
     out.append((full2d, "view"))
     out.append(({"k": "s", "x": r.choice(ws)}, "zerod"))
-    return out if not q else out[:2] + out[3:5] + out[-4:]
+    return out if not q else out[:2] + out[3:5] + out[-5:]
 
 
 def cases(tier, r):
